@@ -98,7 +98,7 @@ fn compile_native_asset_for_output(
     ir: &tir::AssetExpr,
 ) -> Result<primitives::Multiasset<primitives::PositiveCoin>, Error> {
     let policy = coercion::expr_into_bytes(&ir.policy)?;
-    let policy = primitives::Hash::from(policy.as_slice());
+    let policy = coercion::bytes_into_hash(policy.as_slice())?;
     let asset_name = coercion::expr_into_bytes(&ir.asset_name)?;
     let amount = coercion::expr_into_number(&ir.amount)?;
     let amount = primitives::PositiveCoin::try_from(amount as u64).unwrap();
@@ -113,7 +113,7 @@ fn compile_native_asset_for_mint(
     is_burn: bool,
 ) -> Result<primitives::Multiasset<primitives::NonZeroInt>, Error> {
     let policy = coercion::expr_into_bytes(&ir.policy)?;
-    let policy = primitives::Hash::from(policy.as_slice());
+    let policy = coercion::bytes_into_hash(policy.as_slice())?;
     let asset_name = coercion::expr_into_bytes(&ir.asset_name)?;
     let amount = coercion::expr_into_number(&ir.amount)?;
 
@@ -260,16 +260,13 @@ fn compile_mint_block(tx: &tir::Tx) -> Result<Option<primitives::Mint>, Error> {
 }
 
 fn compile_inputs(tx: &tir::Tx) -> Result<Vec<primitives::TransactionInput>, Error> {
-    let mut refs: Vec<_> = tx
-        .inputs
-        .iter()
-        .flat_map(|x| coercion::expr_into_utxo_refs(&x.utxos))
-        .flatten()
-        .map(|x| primitives::TransactionInput {
-            transaction_id: x.txid.as_slice().into(),
-            index: x.index as u64,
-        })
-        .collect();
+    let mut refs = vec![];
+
+    for input in tx.inputs.iter() {
+        for x in coercion::expr_into_utxo_refs(&input.utxos)? {
+            refs.push(coercion::utxo_ref_into_input(&x)?);
+        }
+    }
 
     // utxo sets have no stable iteration order, the payload has to
     refs.sort_by_key(|x| (x.transaction_id, x.index));
@@ -415,7 +412,7 @@ fn compile_vote_delegation_certificate(
 ) -> Result<primitives::Certificate, Error> {
     let stake = coercion::expr_into_stake_credential(&x.data["stake"], network)?;
     let drep = coercion::expr_into_bytes(&x.data["drep"])?;
-    let drep = primitives::DRep::Key(drep.as_slice().into());
+    let drep = primitives::DRep::Key(coercion::bytes_into_hash(drep.as_slice())?);
 
     Ok(primitives::Certificate::VoteDeleg(stake, drep))
 }
@@ -434,32 +431,27 @@ fn compile_certs(tx: &tir::Tx, network: Network) -> Result<Vec<primitives::Certi
 }
 
 fn compile_reference_inputs(tx: &tir::Tx) -> Result<Vec<primitives::TransactionInput>, Error> {
-    let refs = tx
-        .references
-        .iter()
-        .flat_map(coercion::expr_into_utxo_refs)
-        .flatten()
-        .map(|x| primitives::TransactionInput {
-            transaction_id: x.txid.as_slice().into(),
-            index: x.index as u64,
-        })
-        .collect();
+    let mut refs = vec![];
+
+    for reference in tx.references.iter() {
+        for x in coercion::expr_into_utxo_refs(reference)? {
+            refs.push(coercion::utxo_ref_into_input(&x)?);
+        }
+    }
 
     Ok(refs)
 }
 
 fn compile_collateral(tx: &tir::Tx) -> Result<Vec<TransactionInput>, Error> {
-    Ok(tx
-        .collateral
-        .iter()
-        .filter_map(|collateral| collateral.utxos.as_option())
-        .flat_map(coercion::expr_into_utxo_refs)
-        .flatten()
-        .map(|x| primitives::TransactionInput {
-            transaction_id: x.txid.as_slice().into(),
-            index: x.index as u64,
-        })
-        .collect())
+    let mut refs = vec![];
+
+    for utxos in tx.collateral.iter().filter_map(|x| x.utxos.as_option()) {
+        for x in coercion::expr_into_utxo_refs(utxos)? {
+            refs.push(coercion::utxo_ref_into_input(&x)?);
+        }
+    }
+
+    Ok(refs)
 }
 
 fn compile_required_signers(tx: &tir::Tx) -> Result<Option<primitives::RequiredSigners>, Error> {
@@ -664,7 +656,7 @@ fn compile_single_mint_redeemer(
         .first()
         .ok_or(Error::MissingExpression("missing asset".to_string()))?;
     let policy = coercion::expr_into_bytes(&asset.policy)?;
-    let policy = primitives::Hash::from(policy.as_slice());
+    let policy = coercion::bytes_into_hash(policy.as_slice())?;
 
     let out = primitives::Redeemer {
         tag: primitives::RedeemerTag::Mint,
